@@ -45,6 +45,7 @@ def _case(draw, tier):
             "hashing": draw(st.sampled_from([False, True])),
             "order": draw(st.lists(st.integers(0, 7), min_size=0, max_size=40)),
             "ties": draw(st.lists(st.booleans(), max_size=12)),
+            "symlink_sources": draw(st.sampled_from([False, False, True])),
             "rounds": [list(r) for r in rounds]}
 
 
@@ -68,7 +69,10 @@ def run_case(case):
     with project.Project(desc, backend=flavour, config=cfg) as proj:
         R0 = model.Resolved(desc)
         sources = {p: (t if t is not None else 1) for p, t in desc["files"].items() if p not in R0.producers}
-        proj.set_files(sources)
+        links = set(sources) if case.get("symlink_sources") else set()
+        if links:
+            labels.add("symlinked-sources")
+        proj.set_files(sources, symlinks=links)
         hist.prepopulate(proj, R0, case["vector"])
         proj.set_files({p: desc["files"].get(p) for p in R0.producers})
         S = hist.Session(proj, desc, hashing=case["hashing"], accounting=case["accounting"])
